@@ -1,7 +1,6 @@
 (* Pinned statements of C11 (generated once by tools/mkpins.py from coq/props/C11.v, then committed). *)
-From Coq Require Import List Arith Bool.
-Import ListNotations.
-From DV Require Import Proofs.DeleteWalk props.C11.
+From DV Require Import Model.Base Model.Parser Model.Header Model.Readers Model.Mutate Spec.NameSpec Spec.PacketSpec Spec.RecordSpec Spec.PlainSpec
+  Proofs.Hoare Proofs.WalkSkip Proofs.PlainWf Proofs.InsertSpec Proofs.DeleteInv Proofs.DeleteWalk props.C11.
 Check (C11_walk_terminates : forall (A : Type) (D : A -> bool) (l : list A),
   exists r, awalk D ((ndel D l + 1) * (length l + 1)) l 0 [] = Some r).
 Print Assumptions C11_walk_terminates.
@@ -13,3 +12,23 @@ Check (C11_yields_from_current_section : forall (A : Type) (D : A -> bool) fuel 
   awalk D fuel l i ys = Some (l', ys') ->
   exists zs, ys' = ys ++ zs /\ forall z, In z zs -> In z l).
 Print Assumptions C11_yields_from_current_section.
+Check (C11_delete_removes_the_record_under_the_cursor : forall v it s' qls qt lA lN lR r x,
+  dinv v -> reading (pp_packet v) qls qt lA lN lR -> In (r, x) (lA ++ lN ++ lR) -> is_opt r = false ->
+  it_offset it = Some (rv_off r) -> it_name_end it = rv_name_end r -> it_offset_next it = rv_name_end r + 10 + rv_rdlen r ->
+  m_delete (v, it) = (s', Ok tt) ->
+  dinv (fst s') /\ it_offset (snd s') = None /\
+  exists A Nn R A' Nn' R' X1 r0 X2,
+    let o1 := 12 + length (wire_of_labels qls) + 4 in
+    lA = place o1 A /\ lN = place (o1 + length (cat A)) Nn /\ lR = place (o1 + length (cat A) + length (cat Nn)) R /\
+    reading (pp_packet (fst s')) qls qt (place o1 A') (place (o1 + length (cat A')) Nn') (place (o1 + length (cat A') + length (cat Nn')) R') /\
+    A ++ Nn ++ R = X1 ++ (r0, x) :: X2 /\ A' ++ Nn' ++ R' = X1 ++ X2 /\ r = rv_at r0 x (o1 + length (cat X1)) /\
+    ((length A' + 1 = length A /\ Nn' = Nn /\ R' = R) \/ (A' = A /\ length Nn' + 1 = length Nn /\ R' = R) \/
+     (A' = A /\ Nn' = Nn /\ length R' + 1 = length R)) /\
+    (forall w0, u16_at (pp_packet v) 2 w0 -> u16_at (pp_packet (fst s')) 2 w0)).
+Print Assumptions C11_delete_removes_the_record_under_the_cursor.
+Check (C11_second_delete_void : forall v it, it_offset it = None -> m_delete (v, it) = ((v, it), Err VoidRecord)).
+Print Assumptions C11_second_delete_void.
+Check (C11_section_offsets : forall v qls qt lA lN lR, dinv v -> reading (pp_packet v) qls qt lA lN lR ->
+  pp_offset_question v = Some 12 /\ pp_offset_answers v = first_off lA /\ pp_offset_nameservers v = first_off lN /\
+  pp_offset_additional v = first_off lR).
+Print Assumptions C11_section_offsets.
